@@ -146,6 +146,21 @@ Proof.
   eapply perm_trans; [apply ZSort.Permuted_sort|]. rewrite Ha. apply Permutation_sym, ZSort.Permuted_sort.
 Qed.
 
+(* values-based variant: obs_p = the observed parameter blocks of a CONTIGUOUS parameter (so view_offsets p
+   are logical indices), obs_g = per gradient block (shape, the logical indices its elements carry) *)
+Definition C05_grad_values_checkb (obs_p : list view) (obs_g : list (list Z * list Z)) : bool :=
+  forallb2 (fun p g => Zs_eqb (ZSort.sort (view_offsets p)) (ZSort.sort (snd g)) && Zs_eqb (vsizes p) (fst g)) obs_p obs_g.
+
+Theorem C05_grad_values_checkb_sound obs_p obs_g : C05_grad_values_checkb obs_p obs_g = true ->
+  Forall2 (fun p g => Permutation (view_offsets p) (snd g) /\ vsizes p = fst g) obs_p obs_g.
+Proof.
+  unfold C05_grad_values_checkb. revert obs_g; induction obs_p as [|p ps IH]; destruct obs_g as [|g gs]; cbn [forallb2];
+    intros H; try discriminate; [constructor|].
+  apply andb_true_iff in H as [H1 H2]. apply andb_true_iff in H1 as [Ha Hb].
+  apply Zs_eqb_eq in Ha, Hb. constructor; [|apply IH; exact H2]. split; [|exact Hb].
+  eapply perm_trans; [apply ZSort.Permuted_sort|]. rewrite Ha. apply Permutation_sym, ZSort.Permuted_sort.
+Qed.
+
 (* ---- update_params: the storage holds, at every offset a block addresses, that block's direction ---- *)
 Theorem update_okb_sound bl bases storage : update_okb bl bases storage = true ->
   length (scatter bl (update_dirs bl bases)) = length storage
